@@ -42,6 +42,6 @@ ASSUMPTIONS = [
 
 META = {
     "technique": "Coq proofs over the same executable Q model as C01 (phase-by-phase invariants: reservation, deficit covering, greedy top-up, guarded split over inverters; permutation lemmas for the two sorts) + differential correspondence of the real distribute_power on exact rationals vs the model evaluated in Coq + property oracle on the implementation's output with a coded known-finding trigger",
-    "level_text": "Machine-checked, closed under the global context, no run-time hypotheses: C02_inverter (every set-point is zero or inside its inverter's inclusion bounds and outside (1 - 1e-9) x its exclusion zone), C02_inverter_multi_exact (exact for sets with >= 2 inverters), C02_group (the total of a group's inverters is inside the aggregated battery inclusion bounds and zero or outside (1 - 1e-9) x the battery exclusion zone), C02_no_headroom (zero on every inverter of a group without SoC headroom, for every pow with pow(0)=0), C02_manager_exponent, C02_every_component_has_a_setpoint (result groups are a permutation of the input groups, set-point ids a permutation of the group's inverter ids). Correspondence and oracle as for C01; boundary requests (exactly the advertised exclusion bound, exactly the inclusion bound) are generated explicitly.",
-    "level_note": "Full. Known finding: C02-exponent0-full-battery (documented behaviour, exponent 0). The unchanged tree violated C02 (findings F2, F3, split-leftover: fixed by commits fcfd05e, ccb79d8, 5d1dfb7; witnesses in corpus/C02). Trusted base as for C01.",
+    "level_text": "Machine-checked, closed under the global context, no run-time hypotheses: C02_manager_runs_the_algorithm, C02_inverter (every set-point is zero or inside its inverter's inclusion bounds and outside (1 - 1e-9) x its exclusion zone), C02_inverter_multi_exact (exact for sets with >= 2 inverters), C02_group (the total of a group's inverters is inside the aggregated battery inclusion bounds and zero or outside (1 - 1e-9) x the battery exclusion zone), C02_no_headroom (zero on every inverter of a group without SoC headroom, for every pow with pow(0)=0), C02_manager_exponent, C02_every_component_has_a_setpoint (result groups are a permutation of the input groups, set-point ids a permutation of the group's inverter ids). Correspondence and oracle as for C01; boundary requests (exactly the advertised exclusion bound, exactly the inclusion bound) are generated explicitly.",
+    "level_note": "Manager stream: the real BatteryManager (__new__ + injected maps, mutable fake caches, fake API client recording set_power) is driven through distribute_power over sequences of battery / inverter data updates (one side only, both, equal timestamps) and requests of both signs inside and beyond the inclusion bounds in both adjust_power modes; the C01/C02 clauses are judged on the recorded set_power calls and the Result against the LATEST data, and model/DistMgr.v (enforced bounds check + algorithm + subtraction, set order recorded from the run) is compared exactly per request. Full. Known finding: C02-exponent0-full-battery (documented behaviour, exponent 0). The unchanged tree violated C02 (findings F2, F3, split-leftover: fixed by commits fcfd05e, ccb79d8, 5d1dfb7; witnesses in corpus/C02). Trusted base as for C01.",
 }
